@@ -516,3 +516,92 @@ func integersOnlyThroughPrimitivesRule(p *core.Program, r *core.Report, rule str
 	}
 	r.Check(bad == "", rule, "encoding/wkbcommon", "", true, "Uint32 in the count primitive, Uint64 into Float64frombits", bad)
 }
+
+// parserErrorRecordedRule (C06): the generated parser's error callback records every error it is told about.
+func parserErrorRecordedRule(p *core.Program, r *core.Report, rule string) {
+	r.Rule(rule, "(*wktLex).Error - the method goyacc's parser calls for every syntax error, after which it returns 1 - stores the lexer's lastErr on every path to its return (a call that reaches a store to that field dominates each return), and wkt.Unmarshal returns that field when it is set: Unmarshal ignores the parser's status, so an error the callback drops comes back as a nil error with whatever partial result there is", 2)
+	fn := mustFn(p, r, rule, wktRel, "(*wktLex).Error")
+	if fn == nil {
+		return
+	}
+	storesLastErr := func(f *ssa.Function) bool {
+		for _, b := range f.Blocks {
+			for _, in := range b.Instrs {
+				if st, ok := in.(*ssa.Store); ok {
+					if _, path := fieldRoot(st.Addr); strings.HasSuffix(path, ".lastErr") {
+						return true
+					}
+				}
+			}
+		}
+		return false
+	}
+	records := func(c ssa.CallInstruction) bool {
+		g := c.Common().StaticCallee()
+		if g == nil || !core.InModule(g) {
+			return false
+		}
+		if storesLastErr(g) {
+			return true
+		}
+		reach := eng.ReachFrom(p, []*ssa.Function{g})
+		for h := range reach.Parent {
+			if core.InModule(h) && storesLastErr(h) {
+				return true
+			}
+		}
+		return false
+	}
+	var rec []*ssa.BasicBlock
+	if storesLastErr(fn) {
+		for _, b := range fn.Blocks {
+			for _, in := range b.Instrs {
+				if st, ok := in.(*ssa.Store); ok {
+					if _, path := fieldRoot(st.Addr); strings.HasSuffix(path, ".lastErr") {
+						rec = append(rec, b)
+					}
+				}
+			}
+		}
+	}
+	for _, c := range eng.Calls(fn) {
+		if records(c) {
+			rec = append(rec, c.Block())
+		}
+	}
+	bad := ""
+	for _, b := range fn.Blocks {
+		ret, isRet := b.Instrs[len(b.Instrs)-1].(*ssa.Return)
+		if !isRet {
+			continue
+		}
+		dominated := false
+		for _, rb := range rec {
+			if rb == b || rb.Dominates(b) {
+				dominated = true
+			}
+		}
+		if !dominated {
+			bad = "the return at " + p.Pos(ret.Pos()) + " is reached without the error having been recorded: the parser gives up and Unmarshal reports success"
+		}
+	}
+	r.Check(bad == "", rule, short(fn), p.Pos(fn.Pos()), true, "every path records the error", bad)
+	// Unmarshal hands lastErr back when it is set
+	if um := mustFn(p, r, rule, wktRel, "Unmarshal"); um != nil {
+		ok := false
+		for _, b := range um.Blocks {
+			if c, okc := eng.EdgeCmp(b, 0); okc && c.Op == token.NEQ && eng.IsNilConst(c.Y) {
+				if _, path, isF := fieldLoad(c.X); isF && strings.HasSuffix(path, ".lastErr") {
+					for fb := range eng.ReachableFromEdge(b, 0, nil) {
+						if ret, isRet := fb.Instrs[len(fb.Instrs)-1].(*ssa.Return); isRet && len(ret.Results) == 2 {
+							if _, p2, isF2 := fieldLoad(ret.Results[1]); isF2 && strings.HasSuffix(p2, ".lastErr") {
+								ok = true
+							}
+						}
+					}
+				}
+			}
+		}
+		r.Check(ok, rule, short(um), p.Pos(um.Pos()), true, "lastErr != nil is returned as the error", "Unmarshal does not return the lexer's recorded error when one is set")
+	}
+}
